@@ -1,2 +1,314 @@
-(* Props.C16 — placeholder; theorems are being added. *)
-Require Import PyStr Writer.
+(* Props.C16 — write() is deterministic, leaves data alone, states STRT/STOP/STEP truthfully.
+   Statements only; proofs in Proofs/WriteStateProofs.v and Proofs/WriteIdemProofs.v.
+
+   Formal reading.  `write o m` (Model/Writer.v) is writer.write with STRT/STOP/STEP left to
+   lasio, as  options -> LASFile (with index_initial) -> WOk text m' | WErr.  Every theorem is
+   about a successful call `write o m = WOk text m'` and holds FOR ALL oracles
+   fmtv ("f % x"), fmt_diff, fmt_pi, fstr (str(float)), fzero (x == 0), numeq (x == y); the
+   only oracle hypothesis is in C16_truth_texts ("%.5f" never prints an empty text).
+
+   Proved at full strength
+     frame        C16_data_frame      data, index_initial, ~Other, custom sections unchanged
+                  C16_curves_frame    curves: number, order, mnemonics (original and session),
+                                      value, description unchanged; only curve 0's unit may change
+                  C16_params_frame    ~Parameter: exactly `value := standardize value unit`
+                  C16_well_frame      ~Well: number, order, mnemonics, descriptions unchanged;
+                                      items not registered under STRT/STOP/STEP keep their unit
+                                      and get `standardize value unit`
+                  C16_version_frame   ~Version unchanged without wrap=; with wrap=b it is
+                                      set_item "WRAP" (the documented item)
+                  C16_state_depends_on_wrap_only   the resulting object is the same for any two
+                                      option sets with the same wrap= (in particular version=
+                                      never reaches memory)
+                  C16_vers_untouched  the item found under VERS is the same before and after
+                                      (with wrap= given: when WRAP is named at most once, see below)
+     determinism  C16_standardize_idem, C16_refresh_idem (update_start_stop_step +
+                  update_units_from_index_curve twice = once, no hypothesis),
+                  C16_write_text_function_of_state (text = render options (resulting state)),
+                  C16_idempotent_nowrap (wrap=None: second write gives byte-identical text and
+                  no further change, NO hypothesis)
+     truth        C16_truth, C16_truth_texts, C16_units_aligned, C16_need_* (when lasio refreshes)
+
+   Partial
+     C16_idempotent_partial : with wrap= given, idempotence needs `named_once WRAP`: at most one
+       item of ~Version is named WRAP (useful original mnemonic) and an item is named WRAP exactly
+       when it is registered under WRAP (session mnemonic).  The hypothesis is necessary:
+       C16_idempotent_refuted_dup_wrap is a concrete object (two WRAP items, sessions WRAP:1 and
+       WRAP:2, as the reader builds them from a file with two WRAP lines) on which every
+       write(wrap=False) appends one more WRAP item, so two consecutive texts differ.  Real lasio
+       behaves the same (set_item compares session mnemonics, finds none, appends).
+   Not proved here (correspondence only): that the model's text equals lasio's bytes; the
+   truthfulness of the *re-read* output (composition with the reader, C03/C04). *)
+From Coq Require Import List NArith ZArith Bool Arith String.
+Import ListNotations.
+Require Import PyStr Regex NumLit Num Tables SectionParse DataRead Read TextWrap Writer
+               WriteStateProofs WriteIdemProofs.
+Open Scope string_scope.
+Open Scope list_scope.
+Open Scope N_scope.
+
+Section C16.
+Variable fmtv : list N -> list N -> list N.
+Variable fmt_diff : list N -> list N -> list N.
+Variable fmt_pi : list N -> list N.
+Variable fstr : list N -> list N.
+Variable fzero : list N -> bool.
+Variable numeq : list N -> list N -> bool.
+Notation write := (write fmtv fmt_diff fmt_pi fstr fzero numeq).
+
+(* ---- frame ---- *)
+Theorem C16_data_frame : forall o m text m',
+  write o m = WOk text m' ->
+  l_data (m_las m') = l_data (m_las m) /\ m_index_initial m' = m_index_initial m /\
+  l_other (m_las m') = l_other (m_las m) /\ l_custom (m_las m') = l_custom (m_las m).
+Proof. exact (write_data_frame fmtv fmt_diff fmt_pi fstr fzero numeq). Qed.
+
+(* cframe a b: original mnemonic, session mnemonic, value and description of b are a's *)
+Theorem C16_curves_frame : forall o m text m',
+  write o m = WOk text m' ->
+  Forall2 cframe (s_items (l_curves (m_las m))) (s_items (l_curves (m_las m'))) /\
+  tl (s_items (l_curves (m_las m'))) = tl (s_items (l_curves (m_las m))) /\
+  s_transforms (l_curves (m_las m')) = s_transforms (l_curves (m_las m)).
+Proof. exact (write_curves_frame fmtv fmt_diff fmt_pi fstr fzero numeq). Qed.
+
+Theorem C16_params_frame : forall o m text m',
+  write o m = WOk text m' ->
+  l_params (m_las m') =
+  map_section (fun it => set_value it (standardize fzero (i_value it) (i_unit it))) (l_params (m_las m)).
+Proof. exact (write_params_frame fmtv fmt_diff fmt_pi fstr fzero numeq). Qed.
+
+(* wframe_n tr a b: b has a's original mnemonic, session mnemonic and description, and if a is
+   not registered under STRT/STOP/STEP (comparison of the section) also a's unit, and the
+   value standardize (value a) (unit a) *)
+Theorem C16_well_frame : forall o m text m',
+  write o m = WOk text m' ->
+  Forall2 (wframe_n fzero (s_transforms (l_well (m_las m))))
+          (s_items (l_well (m_las m))) (s_items (l_well (m_las m'))) /\
+  s_transforms (l_well (m_las m')) = s_transforms (l_well (m_las m)).
+Proof. exact (write_well_frame fmtv fmt_diff fmt_pi fstr fzero numeq). Qed.
+
+Theorem C16_version_frame : forall o m text m',
+  write o m = WOk text m' ->
+  match wo_wrap o with
+  | None => l_version (m_las m') = l_version (m_las m)
+  | Some b => l_version (m_las m') =
+              mksect (set_item (s_transforms (l_version (m_las m))) (s2l "WRAP") (wrap_item b)
+                               (s_items (l_version (m_las m))))
+                     (s_transforms (l_version (m_las m)))
+  end.
+Proof. exact (write_version_frame fmtv fmt_diff fmt_pi fstr fzero numeq). Qed.
+
+Theorem C16_state_depends_on_wrap_only : forall o1 o2 m t1 t2 m1 m2,
+  wo_wrap o1 = wo_wrap o2 ->
+  write o1 m = WOk t1 m1 -> write o2 m = WOk t2 m2 -> m1 = m2.
+Proof. exact (write_state_wrap_only fmtv fmt_diff fmt_pi fstr fzero numeq). Qed.
+
+Theorem C16_vers_untouched : forall o m text m',
+  write o m = WOk text m' ->
+  (wo_wrap o <> None ->
+   named_once (s_transforms (l_version (m_las m))) (s2l "WRAP") (s_items (l_version (m_las m)))) ->
+  s_transforms (l_version (m_las m')) = s_transforms (l_version (m_las m)) /\
+  sect_find (s_transforms (l_version (m_las m))) (s2l "VERS") (s_items (l_version (m_las m'))) =
+  sect_find (s_transforms (l_version (m_las m))) (s2l "VERS") (s_items (l_version (m_las m))).
+Proof. exact (write_vers_untouched fmtv fmt_diff fmt_pi fstr fzero numeq). Qed.
+
+(* ---- determinism ---- *)
+Theorem C16_standardize_idem : forall v u,
+  standardize fzero (standardize fzero v u) u = standardize fzero v u.
+Proof. exact (standardize_idem fzero). Qed.
+
+Theorem C16_refresh_idem : forall m l,
+  refresh_sss fmtv fmt_diff numeq m = Some l ->
+  refresh_sss fmtv fmt_diff numeq (mkmlas l (m_index_initial m)) = Some l.
+Proof. exact (refresh_idem fmtv fmt_diff numeq). Qed.
+
+(* `render` (Proofs/WriteIdemProofs.v) computes the text from the options and the LASFile left
+   in memory only *)
+Theorem C16_write_text_function_of_state : forall o m text m',
+  write o m = WOk text m' -> render fmtv fmt_pi fstr o (m_las m') = Some text.
+Proof. exact (write_text_function_of_state fmtv fmt_diff fmt_pi fstr fzero numeq). Qed.
+
+Theorem C16_idempotent_partial : forall o m text m',
+  (wo_wrap o <> None ->
+   named_once (s_transforms (l_version (m_las m))) (s2l "WRAP") (s_items (l_version (m_las m)))) ->
+  write o m = WOk text m' -> write o m' = WOk text m'.
+Proof. exact (write_idempotent fmtv fmt_diff fmt_pi fstr fzero numeq). Qed.
+
+Theorem C16_idempotent_nowrap : forall o m text m',
+  wo_wrap o = None -> write o m = WOk text m' -> write o m' = WOk text m'.
+Proof. exact (write_idempotent_nowrap fmtv fmt_diff fmt_pi fstr fzero numeq). Qed.
+
+(* ---- truthfulness ---- *)
+(* need_of: writer.py's `index_changed or stop_is_different` *)
+Theorem C16_need_created : forall m, m_index_initial m = None -> need_of numeq m = Some true.
+Proof. exact (need_created numeq). Qed.
+
+Theorem C16_need_changed : forall m iv lastc rr svv,
+  m_index_initial m = Some iv -> rev iv = lastc :: rr ->
+  item_value_by (s_transforms (l_well (m_las m))) (s2l "STOP") (s_items (l_well (m_las m))) = Some svv ->
+  cells_equal numeq iv (index_of (m_las m)) = false ->
+  need_of numeq m = Some true.
+Proof. exact (need_changed numeq). Qed.
+
+Theorem C16_need_stop_differs_int : forall m iv t rr z,
+  m_index_initial m = Some iv -> rev iv = CNum t :: rr ->
+  item_value_by (s_transforms (l_well (m_las m))) (s2l "STOP") (s_items (l_well (m_las m))) = Some (VInt z) ->
+  numeq t (z_to_str z) = false ->
+  need_of numeq m = Some true.
+Proof. exact (need_stop_differs_int numeq). Qed.
+
+Theorem C16_need_stop_differs_float : forall m iv t rr x,
+  m_index_initial m = Some iv -> rev iv = CNum t :: rr ->
+  item_value_by (s_transforms (l_well (m_las m))) (s2l "STOP") (s_items (l_well (m_las m))) = Some (VFloat x) ->
+  numeq t x = false ->
+  need_of numeq m = Some true.
+Proof. exact (need_stop_differs_float numeq). Qed.
+
+(* aligned_unit l: curve 0's unit when it is not empty, else the unit of the item under STRT *)
+Theorem C16_units_aligned : forall o m text m',
+  write o m = WOk text m' ->
+  let trw := s_transforms (l_well (m_las m)) in
+  let u := aligned_unit (m_las m) in
+  exists s p e,
+    sect_find trw (s2l "STRT") (s_items (l_well (m_las m'))) = Some s /\ i_unit s = u /\
+    sect_find trw (s2l "STOP") (s_items (l_well (m_las m'))) = Some p /\ i_unit p = u /\
+    sect_find trw (s2l "STEP") (s_items (l_well (m_las m'))) = Some e /\ i_unit e = u /\
+    (forall c0 rest, s_items (l_curves (m_las m')) = c0 :: rest -> i_unit c0 = u).
+Proof. exact (write_units_aligned fmtv fmt_diff fmt_pi fstr fzero numeq). Qed.
+
+(* first sample a, last sample z: STRT = "%.5f" % a, STOP = "%.5f" % z,
+   STEP = step_of index = "%.5f" % (second - first) when there are two numeric samples and the
+   STRT and STOP texts differ, else None; all three then pass through standardize (which only
+   matters for an empty text / None: -> 0 with a unit, "" without) *)
+Theorem C16_truth : forall o m text m' a rest z rr,
+  write o m = WOk text m' ->
+  need_of numeq m = Some true ->
+  index_of (m_las m) = CNum a :: rest -> rev (index_of (m_las m)) = CNum z :: rr ->
+  let trw := s_transforms (l_well (m_las m)) in
+  let u := aligned_unit (m_las m) in
+  exists s p e,
+    sect_find trw (s2l "STRT") (s_items (l_well (m_las m'))) = Some s /\
+    sect_find trw (s2l "STOP") (s_items (l_well (m_las m'))) = Some p /\
+    sect_find trw (s2l "STEP") (s_items (l_well (m_las m'))) = Some e /\
+    i_value s = standardize fzero (VStr (fmtv (s2l "%.5f") a)) u /\
+    i_value p = standardize fzero (VStr (fmtv (s2l "%.5f") z)) u /\
+    i_value e = standardize fzero (step_of fmtv fmt_diff (index_of (m_las m))) u /\
+    i_unit s = u /\ i_unit p = u /\ i_unit e = u.
+Proof. exact (write_truth fmtv fmt_diff fmt_pi fstr fzero numeq). Qed.
+
+Theorem C16_truth_texts : forall o m text m' a rest z rr,
+  (forall t, fmtv (s2l "%.5f") t <> []) ->
+  write o m = WOk text m' ->
+  need_of numeq m = Some true ->
+  index_of (m_las m) = CNum a :: rest -> rev (index_of (m_las m)) = CNum z :: rr ->
+  let trw := s_transforms (l_well (m_las m)) in
+  exists s p e,
+    sect_find trw (s2l "STRT") (s_items (l_well (m_las m'))) = Some s /\ i_value s = VStr (fmtv (s2l "%.5f") a) /\
+    sect_find trw (s2l "STOP") (s_items (l_well (m_las m'))) = Some p /\ i_value p = VStr (fmtv (s2l "%.5f") z) /\
+    sect_find trw (s2l "STEP") (s_items (l_well (m_las m'))) = Some e /\
+    (forall b rest', rest = CNum b :: rest' ->
+       str_eqb (fmtv (s2l "%.5f") a) (fmtv (s2l "%.5f") z) = false -> fmt_diff b a <> [] ->
+       i_value e = VStr (fmt_diff b a)) /\
+    (rest = [] \/ (exists b rest', rest = CNum b :: rest' /\
+                   str_eqb (fmtv (s2l "%.5f") a) (fmtv (s2l "%.5f") z) = true) ->
+       i_value e = standardize fzero VNone (aligned_unit (m_las m))).
+Proof. exact (write_truth_texts fmtv fmt_diff fmt_pi fstr fzero numeq). Qed.
+
+End C16.
+
+(* ---- non-vacuity: a small LASFile and toy oracles ------------------------------------------------ *)
+Definition t_fmtv (f t : list N) : list N := t.
+Definition t_fmt_diff (b a : list N) : list N := s2l "1.00000".
+Definition t_fmt_pi (f : list N) : list N := s2l "3.14159".
+Definition t_fstr (t : list N) : list N := t.
+Definition t_fzero (t : list N) : bool := str_eqb t (s2l "0.0").
+Definition t_numeq (a b : list N) : bool := str_eqb a b.
+Definition ex_it (name unit : string) (v : hval) (d : string) : hitem :=
+  mkitem (s2l name) (s2l name) (s2l unit) v (s2l d).
+(* dup = true: ~Version as the reader builds it from a file with two WRAP lines *)
+Definition ex_version (dup : bool) : section :=
+  mksect ([ex_it "VERS" "" (VFloat (s2l "2.0")) "v"] ++
+          (if dup then [mkitem (s2l "WRAP") (s2l "WRAP:1") [] (VStr (s2l "NO")) (s2l "one");
+                        mkitem (s2l "WRAP") (s2l "WRAP:2") [] (VStr (s2l "NO")) (s2l "two")]
+           else [ex_it "WRAP" "" (VStr (s2l "NO")) "w"])) false.
+Definition ex_well : section :=
+  mksect [ex_it "STRT" "M" (VFloat (s2l "1.0")) ""; ex_it "STOP" "M" (VFloat (s2l "9.0")) "";
+          ex_it "STEP" "M" (VFloat (s2l "1.0")) ""; ex_it "NULL" "" (VFloat (s2l "-999.25")) "";
+          ex_it "COMP" "" (VStr (s2l "ACME")) "COMPANY"] false.
+Definition ex_curves : section := mksect [ex_it "DEPT" "FT" (VStr []) "depth"; ex_it "A" "V" (VStr []) "a"] false.
+Definition ex_params : section := mksect [ex_it "BHT" "DEGC" (VStr []) "temp"] false.
+Definition ex_idx : list cell := [CNum (s2l "1.0"); CNum (s2l "2.0"); CNum (s2l "3.0")].
+Definition ex_las (dup : bool) : las :=
+  mklas (ex_version dup) ex_well ex_curves ex_params [] []
+        [ex_idx; [CNum (s2l "5"); CNaN; CNum (s2l "7")]] false.
+Definition ex_m (dup : bool) : mlas := mkmlas (ex_las dup) (Some ex_idx).
+Definition ex_o (w : option bool) : wopts :=
+  mkwopts None w (s2l "%.5f") [] LAuto (s2l " ") (s2l " ") 79 60 (s2l "~ASCII") false.
+Definition ex_write := write t_fmtv t_fmt_diff t_fmt_pi t_fstr t_fzero t_numeq.
+
+(* the call succeeds; STOP (9.0 in the header, 3.0 in the data) is refreshed; units follow curve 0 *)
+Example C16_ex_write_ok :
+  match ex_write (ex_o None) (ex_m false) with
+  | WOk _ m' =>
+      map i_value (firstn 3 (s_items (l_well (m_las m')))) = [VStr (s2l "1.0"); VStr (s2l "3.0"); VStr (s2l "1.00000")] /\
+      map i_unit (firstn 3 (s_items (l_well (m_las m')))) = [s2l "FT"; s2l "FT"; s2l "FT"] /\
+      map i_value (s_items (l_params (m_las m'))) = [VInt 0]
+  | WErr _ => False
+  end.
+Proof. vm_compute. repeat split; reflexivity. Qed.
+
+Example C16_ex_need : need_of t_numeq (ex_m false) = Some true /\
+                      index_of (m_las (ex_m false)) = CNum (s2l "1.0") :: tl ex_idx /\
+                      rev (index_of (m_las (ex_m false))) = CNum (s2l "3.0") :: tl (rev ex_idx).
+Proof. vm_compute. repeat split; reflexivity. Qed.
+
+Example C16_ex_named_once : named_once false (s2l "WRAP") (s_items (l_version (m_las (ex_m false)))).
+Proof.
+  split; [vm_compute; repeat constructor|].
+  intros it [<-|[<-|[]]]; reflexivity.
+Qed.
+
+Example C16_ex_idempotent : forall w,
+  match ex_write (ex_o w) (ex_m false) with
+  | WOk t m' => ex_write (ex_o w) m' = WOk t m'
+  | WErr _ => False
+  end.
+Proof. intros [[|]|]; vm_compute; reflexivity. Qed.
+
+(* the hypothesis of C16_idempotent_partial cannot be dropped: with two WRAP items every
+   write(wrap=False) appends another one *)
+Example C16_idempotent_refuted_dup_wrap :
+  match ex_write (ex_o (Some false)) (ex_m true) with
+  | WOk t m' =>
+      match ex_write (ex_o (Some false)) m' with
+      | WOk t' m'' =>
+          t <> t' /\
+          List.length (s_items (l_version (m_las (ex_m true)))) = 3%nat /\
+          List.length (s_items (l_version (m_las m'))) = 4%nat /\
+          List.length (s_items (l_version (m_las m''))) = 5%nat
+      | WErr _ => False
+      end
+  | WErr _ => False
+  end.
+Proof. vm_compute. repeat split; try reflexivity. discriminate. Qed.
+
+Print Assumptions C16_data_frame.
+Print Assumptions C16_curves_frame.
+Print Assumptions C16_params_frame.
+Print Assumptions C16_well_frame.
+Print Assumptions C16_version_frame.
+Print Assumptions C16_state_depends_on_wrap_only.
+Print Assumptions C16_vers_untouched.
+Print Assumptions C16_standardize_idem.
+Print Assumptions C16_refresh_idem.
+Print Assumptions C16_write_text_function_of_state.
+Print Assumptions C16_idempotent_partial.
+Print Assumptions C16_idempotent_nowrap.
+Print Assumptions C16_need_created.
+Print Assumptions C16_need_changed.
+Print Assumptions C16_need_stop_differs_int.
+Print Assumptions C16_need_stop_differs_float.
+Print Assumptions C16_units_aligned.
+Print Assumptions C16_truth.
+Print Assumptions C16_truth_texts.
+Print Assumptions C16_idempotent_refuted_dup_wrap.
